@@ -207,6 +207,7 @@ func run(c *rig.Ctx) {
 			c.Sample(map[string]any{"class": "history", "last_ops": fmt.Sprint(hist)})
 		}
 	})
+	waveStops(c)
 }
 
 func main() {
